@@ -21,7 +21,7 @@ LEVEL = "exploration"
 RULE = ("cases = (query, target set, n_score_bins, reverse_complement) enumerated completely over the palette / shape grid; every "
         "(query, target) pair is compared: score, (offset, overlap) in the attaining set, p-value; non-trivial = pairs whose "
         "reference p-value is < 1; separately counted: pairs with null mass in similarity bin 0 and pairs with best score 0")
-ASSUMPTIONS = ["inputs on which a query column is equidistant from every pooled target column are excluded (the kernel's score range is empty there)",
+ASSUMPTIONS = ["n_cache is raised to 2*n_score_bins when n_score_bins > 50 (the implementation asks for this when the unaligned-column score exceeds n_cache)", "inputs on which a query column is equidistant from every pooled target column are excluded (the kernel's score range is empty there)",
                "the second stage is fed with the kernel's own integerised similarity matrix after that matrix passed the first-stage checks",
                "p-values compared with absolute tolerance 1e-9"]
 
@@ -57,7 +57,7 @@ def motif(cols):
 def first_stage(TT, Q, T, counts, n_bins, n_median_bins=1000):
     nq, N = Q.shape[1], T.shape[1]
     gamma = numpy.full((N, nq), 1e300)
-    gi = numpy.full((N, nq), 77, dtype='int8')
+    gi = numpy.full((N, nq), 77, dtype='int16')      # wide enough for any n_score_bins: the reference must not inherit a narrow dtype
     f = numpy.full((nq, n_bins + 1), 1e300)
     med = numpy.full(nq, 1e300)
     mb = numpy.full((n_median_bins, 2), 1e300)
@@ -126,7 +126,7 @@ def check_case(rec, TT, Qc, Tcs, n_bins, rc, stats, hashing=False):
                 break
     if S_chk is None or not numpy.array_equal(S, S_chk) or S.min() < 0 or S.max() > n_bins:
         rec.violation("tomtom:integerised_similarity_inconsistent:bins%d" % n_bins, case, expected=S_chk[:4], observed=S[:4],
-                      msg="stored int8 similarity differs from floor((gamma-median)*scale+0.5) (overflow?)")
+                      msg="stored similarity differs from floor((gamma-median)*scale+0.5)")
         return
     for i in range(nq):
         o = numpy.argsort(D[:, i], kind="stable")
@@ -153,7 +153,9 @@ def check_case(rec, TT, Qc, Tcs, n_bins, rc, stats, hashing=False):
         c0 += t.shape[1]
     ref, _ = TR.query_vs_targets(S, offset, counts, cols, n_bins)
     nT = len(Ts)
-    st, res = call(TT.tomtom, [Q], Ts, n_target_bins=(100 if hashing else None), reverse_complement=rc, n_jobs=1, n_score_bins=n_bins)
+    # the scratch length is Q_max*(n_score_bins + n_cache): `offset` may reach n_score_bins, so n_cache must be raised with it
+    st, res = call(TT.tomtom, [Q], Ts, n_target_bins=(100 if hashing else None), reverse_complement=rc, n_jobs=1, n_score_bins=n_bins,
+                   n_cache=max(100, 2 * n_bins))
     if st != "ok":
         rec.violation("tomtom:raises", case, observed=res)
         return
@@ -208,7 +210,7 @@ def run_pal(rec, sh, tier, seed):
         tsets += [list(p) for p in itertools.product(small[:8], repeat=3)]
     else:
         tsets = tsets[:: (3 if tier == "quick" else 1)]
-    bins_list = (100, 10) if tier == "quick" else (100, 10, 50)
+    bins_list = (100, 10) if tier == "quick" else (100, 10, 50, 200)
     for qi, q in enumerate(queries):
         for ti, ts in enumerate(tsets):
             nb = bins_list[(qi + ti) % len(bins_list)]
@@ -225,8 +227,21 @@ def run_pal(rec, sh, tier, seed):
                 st, rr = call(TT.tomtom, [motif(q)], Tr, n_target_bins=None, reverse_complement=True, n_jobs=1, n_score_bins=nb)
                 if st != "ok":
                     rec.violation("tomtom:raises", dict(fn="tomtom", query=list(q), targets="rc of %s" % (ts,)), observed=rr)
-                elif not numpy.allclose(rr[0].numpy(), r[0].numpy(), atol=1e-12) or not numpy.array_equal(rr[1].numpy(), r[1].numpy()):
-                    rec.violation("tomtom:rc_of_targets_changes_p_or_score", dict(fn="tomtom", query=list(q), targets=[list(t) for t in ts], n_score_bins=nb))
+                elif not numpy.allclose(rr[0].numpy(), r[0].numpy(), atol=1e-12):
+                    rec.violation("tomtom:rc_of_targets_changes_p_value", dict(fn="tomtom", query=list(q), targets=[list(t) for t in ts], n_score_bins=nb),
+                                  expected=r[0].numpy(), observed=rr[0].numpy())
+                elif not numpy.array_equal(rr[1].numpy(), r[1].numpy()):
+                    # same p-values, different integer scores: the integerisation SCALE changed.  Known to happen when a query column's
+                    # median distance equals its minimum distance (then floor(z_min) flips between -1 and 0 on a one-ulp difference)
+                    Q_, allT_ = motif(q), [motif(t) for t in ts]
+                    T_ = numpy.concatenate(allT_ + [t[::-1, ::-1] for t in allT_], axis=1)
+                    trig = False
+                    for i in range(Q_.shape[1]):
+                        d = numpy.sort(-numpy.sqrt(((T_ - Q_[:, i:i + 1]) ** 2).sum(0)))
+                        if abs(d[(len(d) - 1) // 2] - d[0]) < 1e-12:
+                            trig = True
+                    rec.violation("tomtom:rc_of_targets_changes_score_scale:" + ("column_median_equals_minimum" if trig else "general"),
+                                  dict(fn="tomtom", query=list(q), targets=[list(t) for t in ts], n_score_bins=nb), expected=r[1].numpy(), observed=rr[1].numpy())
     for k, v in stats.items():
         rec.count(k, v)
     rec.sample(dict(kind="pal", palette=PALETTE[:nc], query_length=ql, queries=len(queries), target_sets=len(tsets), bins=list(bins_list),
